@@ -216,8 +216,29 @@ func findAmountEnd(s string) int {
 	for i < len(s) && (s[i] == '-' || s[i] == '+') {
 		i++
 	}
-	for i < len(s) && ((s[i] >= '0' && s[i] <= '9') || s[i] == '.' || s[i] == ',' || s[i] == '_') {
-		i++
+	isDigit := func(c byte) bool { return c >= '0' && c <= '9' }
+	for i < len(s) {
+		c := s[i]
+		switch {
+		case isDigit(c) || c == '.' || c == ',' || c == '_':
+			i++
+			continue
+		case c == ' ' && i > 0 && isDigit(s[i-1]) && i+1 < len(s) && isDigit(s[i+1]):
+			// a blank between digits is a digit group mark ("1 000,50"), as in the lexer
+			i++
+			continue
+		case (c == 'e' || c == 'E') && i > 0 && isDigit(s[i-1]):
+			// an exponent ("1E3", "1.5e-2"), as in the lexer
+			j := i + 1
+			if j < len(s) && (s[j] == '+' || s[j] == '-') {
+				j++
+			}
+			if j < len(s) && isDigit(s[j]) {
+				i = j
+				continue
+			}
+		}
+		break
 	}
 	if i < len(s) && s[i] == ')' {
 		i++
